@@ -275,7 +275,37 @@ def gen_c13(rnd, tier):
             return {"op": "close", "c": name}
         return rand_request(rnd, name, st["tids"], st["subs"], st["lss"], st["pubs"], v1=True, odd=True)
     n = 24 if tier == "quick" else 400
-    return [rounds_scenario(rnd, rnd.randint(1, 3), rnd.randint(3, 7), 2, mk) for _ in range(n)]
+    out = [rounds_scenario(rnd, rnd.randint(1, 3), rnd.randint(3, 7), 2, mk) for _ in range(n)]
+    # lock contention: answers that come from tasks of their own (grant after a release, cancellation by the
+    # waiter's own release or by a session end) next to ordinary answers
+    for _ in range(4 if tier == "quick" else 60):
+        k = rnd.choice(KEYS)
+        t = {"c1": 0, "c2": 0, "c3": 0}
+
+        def it(c, op, **kw):
+            t[c] += 1
+            return dict({"op": op, "c": c, "tid": t[c]}, **kw)
+        s1 = [it("c1", rnd.choice(["lock", "acquire"]), key=k, wait=True), {"op": "barrier", "n": 0}, {"op": "barrier", "n": 1}]
+        s2 = [{"op": "barrier", "n": 0}, it("c2", "acquire", key=k)]
+        s3 = [{"op": "barrier", "n": 0}, it("c3", "acquire", key=k), it("c3", "get", key=k, wait=True)]
+        for _k in range(rnd.randint(1, 3)):
+            s2.append(rnd.choice([it("c2", "release", key=k), it("c2", "get", key=k), it("c2", "set", key=k, val="v1"),
+                                  it("c2", "acquire", key=k), it("c2", "lock", key=k)]))
+        s2[-1]["wait"] = True
+        s2.append({"op": "barrier", "n": 1})
+        s3.append({"op": "barrier", "n": 1})
+        end = rnd.random()
+        if end < 0.4:
+            s1.append(it("c1", "release", key=k, wait=True))
+        elif end < 0.7:
+            s1.append({"op": "close", "c": "c1"})
+        if rnd.random() < 0.3:
+            s3.append({"op": "close", "c": "c3"})
+        for ss_ in (s1, s2, s3):
+            ss_.append({"op": "barrier", "n": 2})
+        s2.append(it("c2", "get", key=k, wait=True))
+        out.append({"sessions": {"c1": s1, "c2": s2, "c3": s3}})
+    return out
 
 
 def gen_c17(rnd, tier):
